@@ -79,7 +79,37 @@ def step (p : P) (toks : List String) : P × String :=
 
 end PoolDrv
 
+namespace SrvDrv
+
+/-- MAX_CAPACITY, MAX_LIMITATION come with the `start` op (read from the real constants by the harness). -/
+structure St where
+  C : Nat
+  L : Nat
+  s : Srv
+
+def showSt (s : Srv) : String :=
+  s!"pool={s.pool} pending={s.pending} slots={s.slots}"
+
+def step (st : St) (toks : List String) : St × String :=
+  let upd (s : Srv) : St × String := ({ st with s := s }, showSt s)
+  match toks with
+  | ["start", c, l, _preexec] =>
+    let s := Srv.init (Proto.natOf l)
+    (⟨Proto.natOf c, Proto.natOf l, s⟩, showSt s)
+  | ["fill", n] => upd (fill st.C st.L (Proto.natOf n) st.s)
+  | ["hold"] => (st, "ok")
+  | ["pass"] => (st, "ok")
+  | ["submit", k] => upd (submitHeld st.C (Proto.natOf k) st.s)
+  | ["release"] => upd (backAll st.L (releaseAll st.L st.s))
+  | ["saveblock"] => upd (reverifyAll st.s)
+  | ["vblock", k] => upd (blockVerified st.L (Proto.natOf k) st.s)
+  | ["state"] => (st, showSt st.s)
+  | _ => (st, "bad-op")
+
+end SrvDrv
+
 def main (args : List String) : IO Unit :=
   match args with
+  | ["poolsrv"] => Proto.run (⟨0, 0, Srv.init 0⟩ : SrvDrv.St) SrvDrv.step
   | ["pool"] => Proto.run ([] : PoolDrv.P) PoolDrv.step
   | _ => IO.eprintln "usage: drv_pool <family>"
